@@ -395,6 +395,38 @@ def h_second_session(ctx, confs):
     return (name, summary(got))
 
 
+def h_multisession(ctx):
+    """A neighbor configured with `multi-session enable` and a peer OPEN which carries the multi-session capability with or
+    without the capabilities its session id is made of (RFC draft: the list names capability codes).  Whatever the peer
+    sends, the negotiation ends with parameters or with an OPEN error (2/x) - never with another exception."""
+    neighbor = K.neighbor_from(K.mk_conf(families=('ipv4 unicast',), multisession=True))
+    neg, ours, wire = real_session(neighbor)
+    ms = ctx.pick('peer-multisession', ('absent', 'empty', 'lists-mp', 'cisco'))
+    with_mp = bool(ctx.choice('peer-multiprotocol', 2))
+    extra = {'absent': b'', 'empty': K.cap(0x44, b''), 'lists-mp': K.cap(0x44, b'\x01'), 'cisco': K.cap(0x83, b'\x01')}[ms]
+    body = K.peer_open_body(families=((1, 1),) if with_mp else (), asn4=True, extra_caps=extra)
+    theirs, refused = decode_peer(ctx, body, neg)
+    if refused is not None:
+        ctx.cover('refused')
+        ctx.check('open-error', refused[0] == 2, sig='C07:multisession:refused-with-%d/%d' % refused, info={'peer': ms, 'mp': with_mp})
+        return ('refused', refused)
+    try:
+        neg.received(theirs)
+        verdict = neg.validate(neighbor)
+    except Notify as n:
+        verdict = (int(n.code), int(n.subcode), str(n))
+    except Exception as exc:   # noqa: BLE001
+        ctx.check('only-notify-escapes-the-negotiation', False, sig='C07:multisession:negotiation-raises-%s' % type(exc).__name__,
+                  info={'peer-multisession': ms, 'peer-multiprotocol': with_mp, 'raised': '%s: %s' % (type(exc).__name__, exc)})
+        return ('raises', type(exc).__name__)
+    ctx.cover('negotiated' if verdict is None else 'open-refused')
+    if verdict is not None:
+        ctx.check('open-error', verdict[0] == 2, sig='C07:multisession:refused-with-%d/%d' % (verdict[0], verdict[1]), info={'peer': ms, 'mp': with_mp})
+    if not with_mp and ms != 'absent':
+        ctx.cover('multisession-without-multiprotocol')
+    return (ms, with_mp, None if verdict is None else verdict[:2])
+
+
 def caps_covers(c):
     tags = ['families-common', 'families-empty', 'msg-size-4096', 'refresh-absent']
     tags += ['asn4-both', 'asn4-one-side'] if c['asn4'] else ['asn4-one-side', 'asn4-neither']
@@ -928,6 +960,7 @@ def units(tier):
     second = [CAPS_QUICK[5], CAPS_QUICK[6], CAPS_QUICK[0]]
     us.append(Unit('nego/second-session', lambda ctx: h_second_session(ctx, second), weight=20,
                    must_cover=tuple('earlier:' + n for n, _ in EARLIER_OPENS) + ('earlier-open-decoded', 'refresh-normal', 'refresh-enhanced', 'refresh-absent')))
+    us.append(Unit('nego/multisession', h_multisession, must_cover=('multisession-without-multiprotocol', 'open-refused'), weight=10))
     us.append(Unit('nego/refusal', lambda ctx: h_refusal(ctx, rconfs), must_cover=refusal_covers(rconfs), weight=20))
     for c in ([CAPS_QUICK[0], CAPS_QUICK[1], CAPS_QUICK[5], CAPS_QUICK[2]] if thorough else [CAPS_QUICK[5], CAPS_QUICK[1]]):
         us.append(Unit('nego/layout/' + c['name'], lambda ctx, c=c: h_layout(ctx, c),
